@@ -19,7 +19,7 @@ PROPS["C31"] = dict(
                "op-by-op canonical comparison (is an order-preserving renaming); state shape read through the public API at every "
                "recorded head set; private data replaced; save/load/re-save; anonymize twice; and the model evaluates the ORIGINAL and "
                "the ANONYMIZED changes itself and compares the two shapes (chk_same_shape) and its measures with length_at.",
-    rule="40 (thorough 300) histories of the family hist plus 120 (900) own programs of 15-60 (20-110) steps over 2-4 replicas in the "
+    rule="40 (thorough 240) histories of the family hist plus 120 (720) own programs of 15-60 (20-110) steps over 2-4 replicas in the "
          "four text encodings with text-heavy / mark-heavy / conflict-heavy / mixed profiles (multi-byte, combining, ZWJ, whitespace, "
          "control characters; counters, increments, conflicting objects; commit messages and times; actor changes; TIE steps: two synchronized replicas each make one op, so that the two ops have one counter and only the actor order decides the conflict / sibling order - those head sets are compared and sent to the model first), 12 (60) targeted "
          "control-character key programs; every recorded head set (up to 5 / 8 per history) compared. Non-trivial: >= 3 changes and "
